@@ -52,3 +52,24 @@ Theorem C20_code_add_eos_is_model : forall (S : SR) (s' s eos : nat) (G : gramma
   gen_add_eos S s' s eos G = add_eos s' s eos G.
 Proof. intros; apply gen_add_eos_model. Qed.
 Print Assumptions C20_code_add_eos_is_model.
+
+(* String level: with the regenerated normalisation factor, every string's derivation sum from X -- at every height,
+   finite or infinite language -- is the original one divided by Z X, and so is the Kleene iterate (total weight):
+   the normalised grammar "assigns every string its original weight divided by the original total weight", and its
+   total is one when Z is the total.  Any field; the side condition says that a symbol of total weight zero derives
+   nothing (true for non-negative weights). *)
+From GV.model Require Import Agenda.
+From GV.proofs Require LnormStringsProofs.
+Theorem C20_strings_proportional : forall (F : FR) (Z : sym -> F) (G : grammar F),
+  (forall a, Z (T a) = s1) ->
+  (forall Y, Z (N Y) = s0 -> forall h u, W G h Y u = s0) ->
+  (forall Y, Z (N Y) = s0 -> forall h, bu_iter G h Y = s0) ->
+  (forall h X xs, smul (W (lnorm (norm_factor F) Z G) h X xs) (Z (N X)) = W G h X xs) /\
+  (forall h X xs, Z (N X) <> s0 -> W (lnorm (norm_factor F) Z G) h X xs = fdiv F (W G h X xs) (Z (N X))) /\
+  (forall h X, Z (N X) <> s0 -> bu_iter (lnorm (norm_factor F) Z G) h X = fdiv F (bu_iter G h X) (Z (N X))).
+Proof.
+  intros F Z G HT HW HB.
+  split; [exact (LnormStringsProofs.lnorm_W_proportional F Z G HT HW)|].
+  split; [exact (LnormStringsProofs.lnorm_W_divided F Z G HT HW)|exact (LnormStringsProofs.lnorm_total_divided F Z G HT HB)].
+Qed.
+Print Assumptions C20_strings_proportional.
